@@ -31,8 +31,16 @@ def tlc_programs(pid, nv, maxnodes, maxdepth):
     return r, sorted(set(tuple(p) for p in progs))
 
 
-def render(tokens):
-    """-> (text, argdom, opqdom)"""
+def render(tokens, acc=ACC, fields=FIELDS, launch=()):
+    """-> (text, argdom, opqdom).  acc / fields / launch: accelerator name, the two setup fields used and the names of its launch values"""
+    ACC, FIELDS = acc, list(fields)      # noqa: N806 (shadow the module defaults)
+
+    def launch_text(tk, s):
+        if not launch:
+            return f'{tk} = "accfg.launch"({s}) <{{param_names = [], accelerator = "{ACC}"}}> : (!accfg.state<"{ACC}">) -> !accfg.token<"{ACC}">'
+        names = ", ".join(f'"{x}"' for x in launch)
+        tys = ", ".join(["i32"] * len(launch) + [f'!accfg.state<"{ACC}">'])
+        return f'{tk} = "accfg.launch"({", ".join(["%v0"] * len(launch) + [s])}) <{{param_names = [{names}], accelerator = "{ACC}"}}> : ({tys}) -> !accfg.token<"{ACC}">'
     lines = []
     n = [0]
     used_ext = set()
@@ -55,7 +63,7 @@ def render(tokens):
             s, tk = fresh("s"), fresh("t")
             args = ", ".join(f'"{f}" = {v} : i32' for f, v in zip(FIELDS, vals))
             emit(f'{s} = accfg.setup "{ACC}" to ({args}) : !accfg.state<"{ACC}">')
-            emit(f'{tk} = "accfg.launch"({s}) <{{param_names = [], accelerator = "{ACC}"}}> : (!accfg.state<"{ACC}">) -> !accfg.token<"{ACC}">')
+            emit(launch_text(tk, s))
             emit(f'"accfg.await"({tk}) : (!accfg.token<"{ACC}">) -> ()')
             scopes[-1].append(s)
             last[0], last[1] = s, len(kinds)
@@ -101,7 +109,7 @@ def render(tokens):
                 tk = fresh("t")
                 used.add("%b1")
                 emit("scf.if %b1 {")
-                emit(f'  {tk} = "accfg.launch"({vis[-1]}) <{{param_names = [], accelerator = "{ACC}"}}> : (!accfg.state<"{ACC}">) -> !accfg.token<"{ACC}">')
+                emit("  " + launch_text(tk, vis[-1]))
                 emit(f'  "accfg.await"({tk}) : (!accfg.token<"{ACC}">) -> ()')
                 emit("}")
         else:
